@@ -70,7 +70,7 @@ pub fn worker_main(check: &'static dyn DynCheck, seed: u64, tier: Tier, start: u
             }
             agg.absorb_run(&out, h);
             since_flush += 1;
-            if since_flush >= 64 || last_flush.elapsed() > Duration::from_millis(100) {
+            if check.crash_prone() || since_flush >= 64 || last_flush.elapsed() > Duration::from_millis(100) {
                 last_flush = Instant::now();
                 let mut o = stdout.lock();
                 let _ = writeln!(o, "E {}", serde_json::to_string(&agg).unwrap());
